@@ -13,8 +13,8 @@ CHECKS = {
     'C02': dict(ready=True, technique='TLC enumeration of all interleavings (GVMultiEnv, with isolation action properties) replayed on real environments + digest memo across schedules and processes',
                 text='TLC enumerates every interleaving (depth 5 quick / 6 thorough, 2 environments; simulated longer schedules with 3) of environment operations, library-level draws, global numpy/python generator use and debug toggles; each schedule is executed on real environments, every result is memoised under (configuration, seed, own history) and must agree wherever it recurs, the three global generators are compared around every seeded operation, canonical runs of all shipped configurations are repeated in interpreter processes with different PYTHONHASHSEED, and every stochastic component is audited with an explicit recording generator.',
                 note='trusted: numpy generator determinism; digests are SHA-256 prefixes of the canonical JSON projection'),
-    'C03': dict(ready=True, technique='TLC enumeration of all operation sequences of the GVHeap model (AliasFree, OnlyMutateChanges) replayed on real State objects with identity/value snapshots; GVCache behaviours replayed on the real lru caches',
-                text='Every sequence (length 4 quick / 5 thorough, up to 3 handles) of functional step, copy, caller mutation, observation/reward/termination questions and repeated questions is executed on real states (boxes with nested content, doors, held items; several compositions; directly and through GridWorld); after every operation all live handles are re-projected and compared by value and by the identity of every mutable component; LRU hit/miss/eviction histories are replayed on the real shortest-path and ray caches.',
+    'C03': dict(ready=True, technique='TLC enumeration of all operation sequences of the GVHeap model (AliasFree, OnlyMutateChanges) replayed on real State objects with identity/value snapshots; GVCache behaviours replayed on the real lru caches + TLAPS proof of AliasFree for every bound (GVHeapProofs) + answers pooled across histories and worker processes',
+                text='Every sequence (length 4 quick / 5 thorough, up to 3 handles) of functional step, copy, caller mutation, observation/reward/termination questions and repeated questions is executed on real states (boxes with nested content, doors, held items; several compositions; directly and through GridWorld); after every operation all live handles are re-projected and compared by value and by the identity of every mutable component; LRU hit/miss/eviction histories are replayed on the real shortest-path and ray caches. Observations handed out are retained and re-projected after every later operation (only the caller mutating the asked-about state may change them); the same question must get the same answer in every behaviour of every worker process.',
                 note='identity = id() of grid container, row lists, every GridObject incl. box contents, Agent and Transform while all handles are alive'),
     'C04': dict(ready=True, technique='TLC enumeration of all call sequences of the GVEnv machine (with NotStale etc. as invariants) replayed on real GridWorld/OuterEnv with counting wrappers against a functional mirror',
                 text='Every sequence of reset / step / invalid step / observation and state reads / outer reads up to length 5 (6 thorough), plus interleavings with the functional interface and long simulated behaviours on all shipped configurations, is executed on real environments whose five components are wrapped in counters and whose generator records draws; after each operation outcome class, call counters, generator use, and equality with a second environment driven purely through the functional interface are compared with the machine.',
@@ -22,32 +22,32 @@ CHECKS = {
     'C05': dict(ready=True, technique='TLC model checking of pipeline = pointwise (MC_Obs) + TLC trace validation of observation records (Trace_Obs)',
                 text='MC_Obs proves on the specification that slice/rotate/mask equals the pointwise statement for all labelled grids up to 3x3 (4x4 thorough), all poses, all areas with bounds in -2..2 (-3..3); the real observation functions are run on the same exhaustive family and on random grids up to 13x13 and every record is validated cell by cell by TLC.',
                 note='trusted: the JSON projection of states/observations; ray fans are taken from the implementation (validated by C19); partially_occluded/raytracing only on areas in their documented domain'),
-    'C06': dict(ready=True, technique='TLC over all opacity patterns of small views (VisTable, code masks and spec masks) + TLC-validated metamorphic pairs (Trace_Obs)',
-                text='For every opacity pattern of views up to 4x3/3x4 (quick) and 3x5/5x3/4x4 (thorough) TLC evaluates SelfVisible, ChainConnected, Monotone and NonInterfering on the masks returned by the real visibility functions and on the specification; metamorphic pairs and stochastic bounds are validated on full observations up to 9x9/12x12 worlds.',
+    'C06': dict(ready=True, technique='TLC over all opacity patterns of small views (VisTable, code masks and spec masks) + TLC-validated metamorphic pairs (Trace_Obs) + C06.self / C06.chain evaluated by TLC on observations through views up to 15x15',
+                text='For every opacity pattern of views up to 4x3/3x4 (quick) and 3x5/5x3/4x4 (thorough) TLC evaluates SelfVisible, ChainConnected, Monotone and NonInterfering on the masks returned by the real visibility functions and on the specification; metamorphic pairs and stochastic bounds are validated on full observations up to 9x9/12x12 worlds. Views beyond the exhaustive tables (7x7 .. 15x15) are judged on the observation itself: the own cell of the agent is shown and every shown cell hangs on a chain of shown transparent cells.',
                 note='adjacency read as 8-neighbourhood; the measure-zero event random()==0.0 is not explored; patterns use Wall/Floor as opaque/transparent representatives (the functions read only blocks_vision)'),
     'C07': dict(ready=True, technique='TLC model checking of view invariance under RotWorld (MC_Obs) + TLC-validated rotated-world quadruples (Trace_Obs)',
                 text='TLC proves view invariance under the four world rotations on the specification for all labelled grids up to 3x3 (4x4), poses and areas; the real code is run on a world and its three rotations (rotation re-checked by TLC against the specification) for exhaustive small non-square cases and random cases, and the observations must be equal.',
                 note='the harness rotates worlds with its own index arithmetic, verified per record by TLC against GVGeometry.RotGrid'),
-    'C08': dict(ready=True, technique='TLC model checking of KinematicsRule (MC_Step) + Apalache step lemmas for every content of a 5x5/7x9 grid (GVSym) + TLC trace validation of exhaustive step records (Trace_Step) and of long histories with history variables (Trace_History)',
-                text='Exhaustive small scopes: every filling of 1x1/1x2/2x1 grids from a 15-kind alphabet and 3x3 grids with <=1 (quick) / <=2 (thorough) non-floor cells, every pose, held item, action and several compositions; the specification is model-checked against the declarative rule and every outcome of the real code is validated against the rule by TLC.',
+    'C08': dict(ready=True, technique='TLC model checking of KinematicsRule (MC_Step) + Apalache step lemmas for every content of a 5x5/7x9 grid (GVSym) + TLC trace validation of exhaustive step records (Trace_Step) and of long histories with history variables (Trace_History) + walks on live state objects',
+                text='Exhaustive small scopes: every filling of 1x1/1x2/2x1 grids from a 15-kind alphabet and 3x3 grids with <=1 (quick) / <=2 (thorough) non-floor cells, every pose, held item, action and several compositions; the specification is model-checked against the declarative rule and every outcome of the real code is validated against the rule by TLC. Walks on live state objects (every state questioned as the object the previous call returned) over mixed small worlds are judged by the same rule.',
                 note='small-scope hypothesis for grid size (move/turn inspect only the target cell); reachable-state graphs of shipped configurations are covered by C14/C04 runs'),
-    'C09': dict(ready=True, technique='TLC model checking of ConservationRule (MC_Step) + Apalache locality/exchange lemmas (GVSym) + TLC trace validation of exhaustive step records incl. all random outcomes and of long histories (inventory of the episode conserved)',
-                text='Bag of objects (type, colour, box content) incl. held item, scenery immobility and the pick/drop/swap case analysis are checked on every outcome (EnumeratingRNG) of the real code over the exhaustive small families and on the specification.',
+    'C09': dict(ready=True, technique='TLC model checking of ConservationRule (MC_Step) + Apalache locality/exchange lemmas (GVSym) + TLC trace validation of exhaustive step records incl. all random outcomes and of long histories (inventory of the episode conserved) + a user-defined holdable object (Gem) family + walks on live state objects',
+                text='Bag of objects (type, colour, box content) incl. held item, scenery immobility and the pick/drop/swap case analysis are checked on every outcome (EnumeratingRNG) of the real code over the exhaustive small families and on the specification. A second holdable type (user-defined Gem) separates holdable from is-a-Key; walks on live state objects are judged by the same rule.',
                 note='object identity excludes door status (C10); EnumeratingRNG assumes numpy choice(n) has full support'),
-    'C10': dict(ready=True, technique='TLC model checking of DoorRule (MC_Step) + Apalache DoorLemma (GVSym) + TLC trace validation of the complete door/box family and of guided key-door histories with the usedKey history variable (Trace_History)',
-                text='Complete family door status x colours x held items x every relative pose (front, sides, behind, diagonal, under, out of reach, outside the grid) x 8 actions x compositions through the real code, each outcome validated by TLC against the iff-rule; the specification is model-checked against the same rule.',
+    'C10': dict(ready=True, technique='TLC model checking of DoorRule (MC_Step) + Apalache DoorLemma (GVSym) + TLC trace validation of the complete door/box family and of guided key-door histories with the usedKey history variable (Trace_History) + walks on live state objects',
+                text='Complete family door status x colours x held items x every relative pose (front, sides, behind, diagonal, under, out of reach, outside the grid) x 8 actions x compositions through the real code, each outcome validated by TLC against the iff-rule; the specification is model-checked against the same rule. Walks on live state objects (boxes releasing obstacles / keys / telepods) are judged by the same rule.',
                 note='quick tier uses 2 colours + NONE, thorough all 4'),
-    'C11': dict(ready=True, technique='exact support by EnumeratingRNG compared by TLC with the successor sets of the specification (Trace_Step) + MC_Step',
-                text='For every layout of the small families the exact set of outcomes of move_obstacles / teleport (all resolutions of every random choice) must satisfy ObstacleRule/TeleportRule and contain every free neighbour / partner; larger random layouts are checked for membership over seeds.',
+    'C11': dict(ready=True, technique='exact support by EnumeratingRNG compared by TLC with the successor sets of the specification (Trace_Step) + MC_Step + walks on live state objects (order-free chain clause)',
+                text='For every layout of the small families the exact set of outcomes of move_obstacles / teleport (all resolutions of every random choice) must satisfy ObstacleRule/TeleportRule and contain every free neighbour / partner; larger random layouts are checked for membership over seeds. Walks on live state objects (an obstacle released from a box must take its turns) are judged by the order-free chain clause.',
                 note='numpy choice(n) has full support; processing order of obstacles may be any fixed order'),
     'C12': dict(ready=True, technique='TLC trace validation of reward/termination evaluations (Trace_Reward) against GVRewards + agreement invariants in MC_Step',
-                text='Every registered reward and termination component, with default and random decimal parameters and in composites, is evaluated by the real code on triples (real successors and arbitrary next states) and compared exactly (milli-units) with the specification; agreement clauses are checked on the code values and model-checked on the specification.',
+                text='Every registered reward and termination component, with default and random decimal parameters and in composites, is evaluated by the real code on triples (real successors and arbitrary next states) and compared exactly (milli-units) with the specification; agreement clauses are checked on the code values and model-checked on the specification. Distance components are instantiated for Exit, Key, Beacon and Door targets (a target may block movement itself) on random layouts up to 9x6 / 3x11 and serpentine mazes up to 11x8.',
                 note='distance components only where their documented precondition holds; bump_into_wall only where the agent does not stand on a blocking cell or the action is a move'),
     'C13': dict(ready=True, technique='TLC trace validation of reset records against WellFormed/Honourable/MustAccept of GVReset (Trace_Reset), incl. all outputs via EnumeratingRNG for small shapes',
                 text='All eight reset functions are called through the registry factory over shapes 1x1..8x8 (13x13 thorough), all flags, layouts (0..4)^2, counts and colour sets x seeds, and for small shapes on every resolution of their random choices; TLC checks every returned state against the declarative well-formedness predicate of its function and every refusal against the allowed error type and the documented domain.',
                 note='a function may refuse parameters it could have honoured, except its documented domain (MustAccept); generative sets Init_<f> are used for drift only'),
     'C14': dict(ready=True, technique='TLC breadth-first search of the specification dynamics from all states of Init_<f>(p) and from logged initial states (MC_Win); plans replayed on the real step function',
-                text='For small members of every reset family TLC searches from every state of the generative set; for all 21 shipped configurations from initial states produced by the real reset functions over seeds. Every plan found for a logged origin is replayed on the real transition and termination functions; an origin without a plan is re-searched on the real step function before it is reported and matched against the listed known finding (F8).',
+                text='For small members of every reset family TLC searches from every state of the generative set; for all 21 shipped configurations from initial states produced by the real reset functions over seeds. Every plan found for a logged origin is replayed on the real transition and termination functions; an origin without a plan is re-searched on the real step function before it is reported and matched against the listed known finding (F8). Parameter sweeps draw their origins from the real reset functions (48 seeds per room layout in the quick tier, unequal rooms included).',
                 note='random outcomes are part of the existential; search depth bounded (60/120 actions); memory_rooms small members use fixed colours/orientation'),
     'C15': dict(ready=True, technique='TLC model checking over all type/colour subsets (MC_Rep) + TLC trace validation of declared spaces and converted members (Trace_Rep)',
                 text='MC_Rep checks on the specification that every encoding of every object of every space (all subsets of registered types x colour subsets x 3 encodings x state/observation) lies within the declared bounds; the real make_*_representation spaces (and the gym Dict/Box built from them) are compared with the specification and convert() of covering and random members, and of every state/observation along trajectories of all shipped configurations, is checked for shape, dtype kind, bounds and contains().',
@@ -55,14 +55,14 @@ CHECKS = {
     'C16': dict(ready=True, technique='TLC model checking of injectivity / disjoint channels / consecutive compact values (MC_Rep) + TLC trace validation of per-member encodings and pairs (Trace_Rep)',
                 text='On the specification: injectivity of the three encodings on all objects of all spaces, default = index triple, disjoint channel ranges for no-overlap, consecutive values from zero for compact. On the code: every converted array equals the positional encoding of the specification (agent marker exactly at the agent cell), and for pairs of members equal arrays <=> equal members <=> python ==, with equal hashes.',
                 note='box content is not part of equality (as in the library); quick tier samples spaces'),
-    'C17': dict(ready=True, technique='TLC enumeration of single corruptions with verdicts from the registry tables (GVConfig) applied to the real factory + TLC trace validation of shipped trajectories against the specification instantiated with the configuration',
-                text='All shipped files: identical packaged copies, id mapping, build twice, input unchanged, identical trajectories for two builds and for an environment assembled by hand from the registered functions with the parameters the specification table accepts; every step / observation / reset of those trajectories is validated by TLC against the specification instantiated with the configuration data. Every single corruption TLC enumerates (unknown names per slot, each parameter removed, unknown extra parameter, malformed shapes/layouts/colours/objects/actions, missing keys, empty lists) is applied to the real data and the outcome of factory_env_from_data compared with the verdict.',
+    'C17': dict(ready=True, technique='TLC enumeration of single corruptions with verdicts from the registry tables (GVConfig) applied to the real factory + TLC trace validation of shipped trajectories against the specification instantiated with the configuration + valid rewrites (permuted parameter order, from_visibility with nested visibility parameters) compared with the hand-assembled environment',
+                text='All shipped files: identical packaged copies, id mapping, build twice, input unchanged, identical trajectories for two builds and for an environment assembled by hand from the registered functions with the parameters the specification table accepts; every step / observation / reset of those trajectories is validated by TLC against the specification instantiated with the configuration data. Every single corruption TLC enumerates (unknown names per slot, each parameter removed, unknown extra parameter, malformed shapes/layouts/colours/objects/actions, missing keys, empty lists) is applied to the real data and the outcome of factory_env_from_data compared with the verdict. Valid rewrites enumerated by GVConfig (reverse_params, wrap_visibility) must be accepted and behave like the hand-assembled environment, including on probes stepping onto every exit.',
                 note='malformed areas are outside the statement; the coin example (custom components) is covered by build / repeatability only'),
-    'C18': dict(ready=True, technique='TLAPS proofs over Int (GVGeometryProofs, 64 obligations) + TLC model checking (MC_Geom) + TLC trace validation of every geometry operator of the code (Trace_Geom)',
-                text='The group, action, isometry, transform and area laws are proved with TLAPS for all integers on the specification; the finite-set statements and grid rotation laws are model-checked for small coordinates/shapes; every public operator of geometry.py, Grid rotation, get_next_position and get_manhattan_boundary is run on the exhaustive small domain and on random coordinates up to 2^29 and each result is compared by TLC with the specification operator.',
+    'C18': dict(ready=True, technique='TLAPS proofs over Int (GVGeometryProofs, 64 obligations) + TLC model checking (MC_Geom) + TLC trace validation of every geometry operator of the code (Trace_Geom) + limb-wise validation of the coordinate-linear operators on coordinates up to 2^83',
+                text='The group, action, isometry, transform and area laws are proved with TLAPS for all integers on the specification; the finite-set statements and grid rotation laws are model-checked for small coordinates/shapes; every public operator of geometry.py, Grid rotation, get_next_position and get_manhattan_boundary is run on the exhaustive small domain and on random coordinates up to 2^29 and each result is compared by TLC with the specification operator. Coordinates beyond the 32-bit integers of TLC are cut into three signed limbs (base 2^29); linearity makes every limb an ordinary record.',
                 note='proofs are about the specification; the code is bound to it by conformance (exhaustive small + random large), which is sound because the operators branch on the orientation only'),
-    'C19': dict(ready=True, technique='TLC trace validation of logged rays (Trace_Rays, GVRays) + GVCache model behaviours replayed on the real lru caches',
-                text='Every ray of compute_rays_fancy, compute_rays and compute_ray (random directions) for all areas up to 5x5 (9x9 thorough) plus the shipped 7x7 and asymmetric areas and all origins is checked by TLC (start, containment, no repeats, 8-adjacency, ends on border, coverage); hit/miss/eviction histories generated from the GVCache model are replayed on the real cached function comparing answers and counters.',
+    'C19': dict(ready=True, technique='TLC trace validation of logged rays (Trace_Rays, GVRays) + GVCache model behaviours replayed on the real lru caches + TLAPS proof that the memo machine always answers with the function value (GVCacheProofs)',
+                text='Every ray of compute_rays_fancy, compute_rays and compute_ray (random directions) for all areas up to 5x5 (9x9 thorough) plus the shipped 7x7 and asymmetric areas and all origins is checked by TLC (start, containment, no repeats, 8-adjacency, ends on border, coverage); hit/miss/eviction histories generated from the GVCache model are replayed on the real cached function comparing answers and counters. Large and elongated areas (14x14 .. 20x20, 28x3, 3x32; thorough up to 26x26, 41x5) with corner / edge / centre origins are included.',
                 note='the floating-point stepping is not modelled (postcondition check on logged rays)'),
     'C20': dict(ready=True, technique='TLC enumeration of all gym-layer call sequences of the GVEnv machine replayed on real GymEnvironment / GymStateWrapper; registered ids compared with direct construction',
                 text='Every sequence of gym reset / step(i) / observation / state / representation switches (and of the state wrapper) up to length 5-6 is replayed on real adapters over a permuted 6-action space: the transition function must see actions[i], returned observations must be the representation of the post-step observation with the inner reward and flag, everything must lie in the advertised spaces, and switches must update them; all 21 registered ids (gym.make and spec factory) are run against the adapter built on their packaged file.',
